@@ -645,6 +645,19 @@ def r_self_attributes_defined(ctx: Ctx, rule: str) -> None:
         raise AnalysisError("no self-attribute read found")
 
 
+def _canon_default(v):
+    """The default *value* of a dataclass field: `x` for `= x` / `field(default=x)`, `factory:f` for default_factory, None if required."""
+    import ast as _ast
+    if isinstance(v, _ast.Call) and (getattr(v.func, "attr", None) == "field" or getattr(v.func, "id", None) == "field"):
+        for k in v.keywords:
+            if k.arg == "default":
+                return _ast.unparse(k.value)
+            if k.arg == "default_factory":
+                return "factory:" + _ast.unparse(k.value)
+        return None
+    return _ast.unparse(v)
+
+
 def r_public_defaults(ctx: Ctx, rule: str) -> None:
     """Default values of public parameters are behaviour every caller that omits the argument relies on."""
     import json
@@ -693,7 +706,7 @@ def r_public_defaults(ctx: Ctx, rule: str) -> None:
         c = classes.get(key)
         if c is None:
             continue
-        cur = {fl.name: ast.unparse(fl.node.value) for fl in c.own_fields if fl.node.value is not None}
+        cur = {fl.name: _canon_default(fl.node.value) for fl in c.own_fields if fl.node.value is not None}
         names = {fl.name for fl in c.own_fields}
         for fname, want in fields.items():
             if fname not in names:
